@@ -27,7 +27,7 @@ CLAIMS = {
           '997/999 map and is accepted unless the only complaints are element errors at echo positions. Decided by TLC (T_Ack) on every real execution; the '
           'visitor models Ack997/Ack999 are model-checked against the same clauses.',
   'note': 'Same scenario family as C05 (TLC-generated documents with 1-2 interchanges x 1-2 groups x 1-3 sets, envelope variants, stray and truncated trailers, '
-          'echo classes TERM/ELE/SUB/REP, and a simple element carrying the component separator of the SOURCE - read as a composite and echoed with that separator). Dates, times and the random control numbers of the acknowledgement are only compared header-to-trailer.',
+          'echo classes TERM/ELE/SUB/REP, control numbers and segment identifiers holding a separator of the acknowledgement (st02_sep, gs06_sep, segid_sep), a set without ST02 (st02_absent), and a simple element carrying the component separator of the SOURCE - read as a composite and echoed with that separator). Dates, times and the random control numbers of the acknowledgement are only compared header-to-trailer.',
   'technique': 'TLA+ model (Ack997/Ack999 over ErrTree) model-checked by TLC against AckDef/Recount + TLC scenarios realised as real documents + real re-read and '
                're-validation of every acknowledgement + TLC trace validation (T_Ack)',
  },
@@ -60,7 +60,7 @@ CLAIMS = {
           'fixtures and concatenations of them) is trace-validated by TLC (T_Envelope): the Recount definition decides violations per segment and at cleanup, '
           'the Envelope transcription is compared state-by-state (counters, loop stack, error list) and reports drift.',
   'note': 'Control numbers range over 2-3 abstract values rendered into the document in three styles (equally padded numeric, alphanumeric, numerically equal but textually different header/trailer) and judged as the strings the reader parsed; a blank HL02 makes no claim; LX numbering is claimed only after a CLM of the same set '
-          'with the caller-enabled 837 check; error classes are compared as (level, code) sets. Trusted: TLC, concretiser/projection in lib/c04.py.',
+          'with the caller-enabled 837 check; error classes are compared as (level, code) sets. Trusted: TLC, concretiser/projection in lib/c04.py. HL level and child codes (HL03/HL04: 0, 1, absent) are written in every form: they are no part of the numbering / parent claims.',
   'technique': 'TLA+ refinement check (TLC) of reader model vs recount definition + replay of TLC histories into X12Reader + TLC trace validation of recorded executions',
  },
  'C14': {
@@ -114,7 +114,7 @@ CLAIMS = {
           'real pyx12.scripts.x12norm.main() under the option combinations of eol and count fixing, to stdout, -o file and in place, and a second time; output segments (element by element), '
           'layout (line break after each terminator when asked, final newline), equality of the three destinations and idempotence are trace-validated by TLC (T_Norm).',
   'note': 'Real-size inputs (16-25 KB) sweep a terminator / CR / LF across the 8 KiB read boundaries under every line-break convention. Inputs are generated envelope/HL skeletons with fixed representative values (no composites); count fixing is only specified for inputs whose only defects are counts; quick tier samples '
-          '2000 histories per alphabet. Trusted: TLC, output splitter in lib/c20.py (splits on the declared terminator and separator only).',
+          '2000 histories per alphabet. Trusted: TLC, output splitter in lib/c20.py (splits on the declared terminator and separator only). In runs with several files the earlier file is written under another encoding than the later one (every other time with the line break itself as terminator).',
   'technique': 'TLA+ model checking (TLC) of the fixing rule vs recount definition + replay of TLC histories through x12norm.main() + TLC trace validation',
  },
  'C02': {
@@ -134,7 +134,7 @@ CLAIMS = {
  'C03': {
   'text': 'Conformant documents of the real maps come from TLC DocGen (as C02). TLC Fault.tla enumerates over the full exported map every applicable single-fault plan (segment x element x '
           'component x kind; 17 kinds of the catalogue: too long/short, bad code, bad class, bad date/time, missing required, not-used present, too many (sub-)elements, broken syntax note (P R E C L), '
-          'unknown / out-of-place / missing required / over-max segment, missing required / over-max loop) with its locality (a fault on a qualifier element or a segment-level fault is structural); one plan is applied per run '
+          'unknown / out-of-place / missing required / over-max segment, missing required / over-max loop) with its locality (a fault on a qualifier element, a missing required loop and any fault outside a set are structural; an unknown, out-of-place, missing or over-max segment and an over-max loop inside a set are local); one plan is applied per run '
           '(value built to break exactly one constraint, SE count kept consistent) and the faulted document validated by the real x12n_document; T_Fault (TLC) judges each record: verdict false, '
           'an error with a matching standard code at the injected segment and element position, and for local faults nothing else reported, the faulted set rejected and the other sets accepted.',
   'note': 'Plans run on random deep walks of the map (4 documents reach 58/58 segment nodes of the 835, 201/395 of the 837P); every broken-note plan also in the variant where the segment ends at the element the note hangs on; bad codes avoid the qualifiers of same-id segments; a fault outside any set has no faulty set. Quick: 4 documents per map on 6 maps, up to 45 sampled plans per kind and map (~3000 runs); thorough: 40 documents per map on every loadable map, all plans. An out-of-place segment is a copy of an earlier segment whose identifier cannot follow the insertion point when the map is read forward (Fault!ForwardIds: later children and loop entries of every enclosing loop); a missing segment or loop must be reported at the segment after the gap (a missing segment: no later than the first following segment beyond its ordinal). NotUsedSeg is not generated: no shipped map declares a not-used segment. '
@@ -160,13 +160,13 @@ CLAIMS = {
           'converted text (masked only for ack date/time/control numbers and the HTML date line) and a fingerprint of watched globals are recorded as digests and trace-validated by TLC (T_Session): '
           'Obs = Fresh(doc,kind) for every call, globals unchanged, and all fresh processes of one (doc,kind) agree whatever their hash seed.',
   'note': 'A call exceeding 45 s CPU / 3 GB is reported as no_termination and ends its process. Bounded corpus and history length; stages stop at a deadline and the evidence records exhaustive=false if the exhaustive part was cut short; TLC contributes enumeration and the equality verdicts, '
-          'the leak itself is only visible by running the code; SHA-1 digests stand for texts; reuse=maps goes through a wrapper of map_if.load_map_file. Trusted: TLC, masking/projection in lib/c18_worker.py.',
+          'the leak itself is only visible by running the code; SHA-1 digests stand for texts; reuse=maps goes through a wrapper of map_if.load_map_file. Trusted: TLC, masking/projection in lib/c18_worker.py. The corpus holds one document (e834v5local) that is processed with an explicit map directory (map_path) whose 834 5010 guide differs from the packaged one: the map directory is a parameter like any other.',
   'technique': 'TLA+ model checking (TLC) + replay of TLC-enumerated call histories in fresh interpreters + TLC trace validation of the recorded observations',
  },
  'C08': {
   'text': 'Model: TLC checks on XmlGen that the coded pop/push step of x12xml_simple.seg (list-wise match index, character-wise common prefix, match_idx -= 1, repeat case) equals the definition '
           'step DefStep for every transition between loop paths of a 3-id x depth-3 tree, that the open elements always spell the loop path, and Unescape(Escape(s)) = s with no markup left for all '
-          'strings <= 4/5 over {a & < > \' ; l t} (content and attribute escaping); a second run with character-prefix sibling ids reports the latent differences as information. Code: conformant '
+          'strings <= 4/5 over {a & < > \' ; l t ] "} (content and attribute escaping); a second run with character-prefix sibling ids reports the latent differences as information. Code: conformant '
           'documents from TLC DocGen (coverage set, documents with one loop id at two paths, random deep walks) with & < > \' " and blanks in free-text values under 3 delimiter triples are converted '
           'by x12n_document(fd_xmldoc) and back by xmlx12_simple.convert; T_Xml (TLC) validates well-formedness, the loop/segment event sequence against DefStep over the map path of the node each '
           'segment matched, that the ele/subele labels are reference designators rebuilding the source segment (not-used elements and ISA separator fields excepted), and the round trip.',
@@ -216,7 +216,7 @@ CLAIMS = {
           'with values carrying < > & " \' and blanks, and - with fixtures, seeded fixture mutations, concatenated interchanges and markup-character delimiters - run through the real x12n_document; '
           'the recorded error-handler calls, source segments and the HTML parsed back with html.parser are trace-validated by TLC (T_Html): every segment once, in order, with line number and values, '
           'every claimed segment-/element-level error adjacent to its segment, no unescaped input, complete document, StripMarkup = source.',
-  'note': 'Errors reported while a body segment of a transaction set the handler has open is processed are claimed wherever the handler keeps them; reader-level errors are also put on the first and the last body segment of a set; element errors are put on SE / GE / IEA with values that spell a segment identifier (this corpus found the GE hack repaired by /repo 1bcd704). Claimed errors = seg_error/ele_error calls made while a segment is validated and stored in the tree; isa/gs/st-level errors and errors the handler dropped are recorded, not claimed. '
+  'note': 'Errors reported while a body segment of a transaction set the handler has open is processed are claimed wherever the handler keeps them; reader-level errors are also put on the first and the last body segment of a set; the listed segment text is compared with the segment AS WRITTEN in the source (raw pieces cut at the terminator independently of the reader; empty trailing elements and components included) wherever the pieces line up one to one with the segments the reader yields; element errors are put on SE / GE / IEA with values that spell a segment identifier (this corpus found the GE hack repaired by /repo 1bcd704). Claimed errors = seg_error/ele_error calls made while a segment is validated and stored in the tree; isa/gs/st-level errors and errors the handler dropped are recorded, not claimed. '
           'Six recorded findings (cursor stuck after the first interchange / in an unclosed loop / on a closed set / on envelope lines, stale element node for too-many-elements). Trusted: TLC, lib/c19_run.py.',
   'technique': 'TLA+ model checking (TLC) of the error-tree cursor and report model + realisation of emitted behaviours as documents + TLC trace validation of recorded runs (drift reported separately)',
  },
